@@ -47,7 +47,7 @@ IsStep == cur.op # "Reset"
 
 IsApp(e) == e.op \in {"AppWrite", "AppWrite2", "AppGrow", "AppGrowWrite", "AppShrink", "AppDelete", "AppReclaim", "AppVacuum", "AppDDL", "AppBegin", "AppSpill",
                       "AppCommit", "AppRollback", "AppCheckpoint", "AppHoldWrite", "AppJoin", "AppClose", "AppOpen", "ReaderOpen", "ReaderClose", "ParApp"}
-IsLs(e)  == e.op \in {"ParStep", "ParEnd", "LsOpen", "LsSync", "LsReplicaSync", "LsSyncAndWait", "LsCheckpoint", "LsClose", "LsReset",
+IsLs(e)  == e.op \in {"LocalLoss", "ParStep", "ParEnd", "LsOpen", "LsSync", "LsReplicaSync", "LsSyncAndWait", "LsCheckpoint", "LsClose", "LsReset",
                       "Snapshot", "Compact", "CkStart", "CkStep", "CkCancel"}
 \* a litestream checkpoint, either as one call (LsCheckpoint) or step by step (CkStart, CkStep: res = "at" while parked at a hook)
 IsChk(e) == e.op \in {"LsCheckpoint", "CkStart", "CkStep"}
@@ -133,6 +133,8 @@ Next ==
                \cup (IF byChk THEN {"G1"} ELSE {})
                \* Z1: a sync/checkpoint acquired the executor of a DB that was no longer open (check-then-act in Store.SyncDB / DB.Sync)
                \cup (IF e.op = "ParStep" /\ ((e.res = "exec.acquired" /\ ~e.open) \/ e.res = "exec.acquired|closed") THEN {"Z1"} ELSE {})
+               \* S2: local level-0 files vanished / were truncated while litestream was running
+               \cup (IF e.op = "LocalLoss" /\ e.res = "ok" /\ p.up THEN {"S2"} ELSE {})
                \* F3: local state reset on a running DB (what auto-recover does)
                \cup (IF e.op = "LsReset" /\ e.res = "ok" /\ p.up THEN {"F3"} ELSE {})
           /\ idleN' = IF IsSync(e) /\ e.res = "ok" THEN idleN + 1 ELSE IF IsApp(e) /\ e.res # "skip" THEN 0 ELSE idleN
